@@ -215,6 +215,8 @@ class Verifier:
         rep.obligations = eng.obligations
         rep.erased = eng.erased
         rep.assumed = eng.assumed_calls
+        rep.callees = sorted(set(eng.used_contracts))
+        rep.vacuous = list(getattr(eng, 'vacuous', []))
         return rep
 
     def run_path(self, eng, fi, c, prefix, rep, frm=None):
